@@ -316,7 +316,10 @@ static void *ck_map (size_t len, void *ud) {
     _exit (81);
   }
   r = &regions[nregions++];
-  r->base = __real_mmap (NULL, rlen, PROT_READ | PROT_EXEC, MAP_PRIVATE | MAP_ANONYMOUS, -1, 0);
+  /* one inaccessible guard page behind the region: a copy running past the end faults instead of landing in
+     whatever happens to be mapped there */
+  r->base = __real_mmap (NULL, rlen + PAGE, PROT_NONE, MAP_PRIVATE | MAP_ANONYMOUS, -1, 0);
+  __real_mprotect (r->base, rlen, PROT_READ | PROT_EXEC);
   r->shadow = __real_mmap (NULL, rlen, PROT_READ | PROT_WRITE, MAP_PRIVATE | MAP_ANONYMOUS, -1, 0);
   r->len = rlen;
   r->cx = (int) (c - cxs);
@@ -334,7 +337,7 @@ static int ck_unmap (void *ptr, size_t len, void *ud) {
     for (size_t pg = 0; pg < r->len / PAGE; pg++) diff_page (r, pg);
     ev (r->cx, "Z %lu %lu", canon (ptr), (unsigned long) len);
     if ((uint8_t *) ptr == r->base && (len + PAGE - 1) / PAGE * PAGE == r->len) {
-      __real_munmap (r->base, r->len);
+      __real_munmap (r->base, r->len + PAGE);
       __real_munmap (r->shadow, r->len);
       r->live = 0;
     } else {
@@ -394,6 +397,14 @@ static void on_fault (int sig, siginfo_t *si, void *uc_) {
       return;
     }
   }
+  if (is_write)
+    for (int i = 0; i < nregions; i++)
+      if (regions[i].live && (uint8_t *) si->si_addr >= regions[i].base + regions[i].len
+          && (uint8_t *) si->si_addr < regions[i].base + regions[i].len + PAGE) {
+        /* a write running past the end of a code region (into its guard page): a code write to unmapped memory */
+        ev (regions[i].cx, "W %lu 1", (1ul << 60) | (unsigned long) (uintptr_t) si->si_addr);
+        oprintf ("X write past the end of a code region at %p (pc %p)", si->si_addr, (void *) uc->uc_mcontext.gregs[REG_RIP]);
+      }
   oprintf ("X CRASH signal %d addr %p pc %p", sig, si->si_addr, (void *) uc->uc_mcontext.gregs[REG_RIP]);
   oflush ();
   _exit (70);
